@@ -1,4 +1,5 @@
 pub mod c18;
 pub mod c19;
 pub mod c08;
+pub mod c09;
 mod playback_gen;
